@@ -45,7 +45,7 @@ static const char *ex_tokens[] = {
 };
 
 /* long command lines around the 512-byte limit (built at start-up) */
-static char *long_tokens[8];
+static char *long_tokens[24];
 static int n_long;
 
 /* ---- initial configurations ---------------------------------------------------------------------------- */
@@ -134,6 +134,29 @@ static void make_long_tokens(int exmode)
 		t[o++] = '\n';
 		t[o] = '\0';
 		long_tokens[n_long++] = t;
+	}
+	/* path names whose % / # expansions land around the size of the expansion buffer (1024), and the
+	 * commands that expand them */
+	{
+		static const int plen[] = {255, 256, 257, 341, 511, 512};
+		static const char *users[] = {"e! %%%%\n", "e! %%%\n", "e! %%\n", "w! %%%%\n", "e! #%#%\n", "ec %%%%\n"};
+		for (i = 0; i < 6; i++) {
+			char *t = malloc(plen[i] + 16);
+			int o = 0;
+			if (!exmode)
+				t[o++] = ':';
+			o += sprintf(t + o, "e! ");
+			for (j = 0; j < plen[i]; j++)
+				t[o++] = 'p';
+			t[o++] = '\n';
+			t[o] = '\0';
+			long_tokens[n_long++] = t;
+		}
+		for (i = 0; i < 6; i++) {
+			char *t = malloc(32);
+			sprintf(t, "%s%s", exmode ? "" : ":", users[i]);
+			long_tokens[n_long++] = t;
+		}
 	}
 }
 
